@@ -6,6 +6,7 @@ import (
 	"math"
 	"os"
 	"runtime"
+	"runtime/debug"
 	"strconv"
 	"strings"
 )
@@ -1186,14 +1187,14 @@ func c11Replay(path string, model *Model, r *Result) {
 
 // ---------- corpus: fixed regression cases run first ----------
 
-func c11Corpus(model *Model, r *Result) {
+func c11Corpus(model *Model, r *Result, thorough bool) {
 	// 4-byte code points and combining marks: strings are indexed by code point
-	for _, elems := range [][]string{{"😀", "a", "ä"}, {"e", "́", "日"}, {"a", "😀"}} {
-		c11SweepContainer("str", elems, model, r, true)
+	for k, elems := range [][]string{{"😀", "a", "ä"}, {"e", "́", "日"}, {"a", "😀"}} {
+		c11SweepContainer("str", elems, model, r, thorough || k == 0)
 	}
 	// arrays of strings (copyOrRef on string cells)
-	for _, elems := range [][]string{{"a", "ä", "日"}, {"日"}} {
-		c11SweepContainer("arr-str", elems, model, r, true)
+	for k, elems := range [][]string{{"日"}, {"a", "ä", "日"}} {
+		c11SweepContainer("arr-str", elems, model, r, thorough || k == 0)
 		c11SweepFresh("arr-str", elems, model, r)
 	}
 }
@@ -1205,7 +1206,8 @@ func runC11(cfg Config, r *Result) {
 		return
 	}
 	defer model.Close()
-	r.Rule = "exhaustive: every array of num over {1,2,3} and every string over {a, ä, 日} of length 0..L (L=4 quick, 6 thorough) × every index value of {-n-2..n+2, n±0.5, ±0.5, -0, NaN, ±Inf, ±2^31, ±2^32, ±(2^32+1), ±2^53, ±2^63, ±nextafter(2^63) both sides, ±2^64, ±1e300, ±5e-324, ±(1∓ulp)} for read and write; for slices every pair of those plus a missing bound up to length 2 (quick) / 5 (thorough) and every pair of {-n-2..n+2, 0.5, missing} for the longer containers; slice-then-write freshness scripts on flat and nested arrays (L<=3 / 4), each as a real evy program; plus the conversion link int(f)/float64(i) on all sweep values, all powers of two ±1ulp and random floats; non-trivial = container of length >= 1; distinct = distinct (operation, container, index tuple)"
+	debug.SetGCPercent(400) // every case allocates a fresh parser + evaluator with all built-ins
+	r.Rule = "exhaustive: every array of num over {1,2,3} and every string over {a, ä, 日} of length 0..L (L=3 and a third of length 4 in quick, L=6 in thorough) × every index value of {-n-2..n+2, n±0.5, ±0.5, -0, NaN, ±Inf, ±2^31, ±2^32, ±(2^32+1), ±2^53, ±2^63, ±nextafter(2^63) both sides, ±2^64, ±1e300, ±5e-324, ±(1∓ulp)} for read and write; for slices every pair of those plus a missing bound up to length 1 (quick) / 4 (thorough) and every pair of {-n-2..n+2, 0.5, missing} for the longer containers; slice-then-write freshness scripts on flat and nested arrays (L<=2 / 3), each as a real evy program; plus the conversion link int(f)/float64(i) on all sweep values, all powers of two ±1ulp and random floats; non-trivial = container of length >= 1; distinct = distinct (operation, container, index tuple)"
 	if runtime.GOARCH != "amd64" {
 		r.Note("GOARCH=%s: the model writes Go's amd64 float->int conversion; on other architectures out-of-range conversions differ", runtime.GOARCH)
 	}
@@ -1217,17 +1219,23 @@ func runC11(cfg Config, r *Result) {
 	}
 	c11Static(r)
 	c11Conv(cfg, model, r)
-	c11Corpus(model, r)
+	c11Corpus(model, r, cfg.Tier == "thorough")
 	nums := []string{"1", "2", "3"}
 	chars := []string{"a", "ä", "日"}
 	maxLen := cfg.N(4, 6)
-	maxSlice := cfg.N(2, 5)
-	maxFresh := cfg.N(3, 4)
+	maxSlice := cfg.N(1, 4)
+	maxFresh := cfg.N(2, 3)
 	for n := 0; n <= maxLen; n++ {
-		for _, e := range c11Containers(nums, n) {
+		for k, e := range c11Containers(nums, n) {
+			if cfg.Tier != "thorough" && n == 4 && k%3 != 0 {
+				continue // quick: a third of the length-4 containers
+			}
 			c11SweepContainer("arr-num", e, model, r, n <= maxSlice)
 		}
-		for _, e := range c11Containers(chars, n) {
+		for k, e := range c11Containers(chars, n) {
+			if cfg.Tier != "thorough" && n == 4 && k%3 != 1 {
+				continue
+			}
 			c11SweepContainer("str", e, model, r, n <= maxSlice)
 		}
 		if n <= maxFresh {
